@@ -5,9 +5,9 @@ import c03
 
 PID = "C14"
 LEVEL = "proof"
-COQ_TARGETS = ["Props/C14.vo", "Props/C14_gen.vo"]
-PROPS_FILES = ["C14", "C14_gen"]
-THEOREMS = ["C14_sample_deterministic", "C14_sample_leaves_dist", "C14_clone_same_sequence", "C14_rebuild_same_sequence",
+COQ_TARGETS = ["Props/C14.vo", "Props/C14_gen.vo", "Props/C14_fp.vo"]
+PROPS_FILES = ["C14", "C14_gen", "C14_fp"]
+THEOREMS = ["C14_fingerprints", "C14_sample_deterministic", "C14_sample_leaves_dist", "C14_clone_same_sequence", "C14_rebuild_same_sequence",
             "C14_interleaving_independent", "C14_iter_eq_repeat", "C14_stream_position", "C14_purity_ok", "C14_samplers_listed"]
 TRUSTED_BASE = [
     "Coq 8.16.1 kernel; Model/Pure.v theorems (closed under the global context) hold for EVERY program of type "
